@@ -66,7 +66,7 @@ def distributive_rules(ctx):
         facts = [(unparse(e), pol) for e, pol in cfg_of(rc).facts(apps[0][0])]
         ok = ("all((c in comp for comp in and_components))", True) in facts
     ctx.ob("ALG.distributive.common-to-all", rc, "a conjunct is pulled out of the disjunction only if it occurs in ALL disjuncts", ok, "" if ok else "a conjunct that is missing from one disjunct is factored out: (A&B)|(A&C)|D becomes A&(B|C|D) and rows matching only D are dropped")
-    ok = bool(find("outer_component = outer_component & mapping[r]", rc)) and bool(find("or_component = or_component | c", rc)) and any(unparse(r.value) == "outer_component & or_component" for r in returns(rc))
+    ok = bool(find("outer_component = outer_component & mapping[r]", rc)) and bool(find("or_component = or_component | c", rc)) and any(eqv(r.value, "outer_component & or_component") for r in returns(rc))
     ctx.ob("ALG.distributive.shape", rc, "result = (conjunction of the common conjuncts) & (disjunction of the remainders)", ok)
     ok = bool(find("keep_components = [c for c in comp if c not in replacements]", rc)) and bool(find("result_component = result_component & comp[c]", rc))
     ctx.ob("ALG.distributive.remainder", rc, "each disjunct keeps exactly its non-common conjuncts, and-ed together", ok)
